@@ -107,6 +107,20 @@ def run(ctx):
     okn = len(nest) == 1 and any((t, pol) in fcc[nest[0].id] for t, pol in (("self.close_dlist", True), ("not self.close_dlist", False)))
     r.check(okn, "%s#nests-earlier-aggregate" % cbc.qname, "an aggregate still pending from an earlier close (metadata refresh) is dropped",
             where(cbc, cbc.node), "close() fires before brokers being closed by a refresh are gone")
+    resets = []
+    for g in [cbc] + list(cbc.nested.values()):
+        cg = ctx.cfg(g)
+        fg = ctx.facts(g)
+        for n in cg.nodes:
+            v = node_assign_value(n, "close_dlist")
+            if v is not None and isinstance(v, ast.Constant) and v.value is None:
+                cmp_ok = any(pol and ("== self.close_dlist" in t or "self.close_dlist ==" in t or "is self.close_dlist" in t or "self.close_dlist is " in t)
+                             for t, pol in fg[n.id])
+                resets.append((g, n, cmp_ok))
+    r.check(bool(resets) and all(ok for g, n, ok in resets), "%s#reset-only-own-aggregate" % cbc.qname,
+            "the pending-close aggregate is forgotten although it may not be the one that just completed", where(cbc, cbc.node),
+            "two overlapping refreshes each close a broker; the older batch completes first and wipes the reference to the newer "
+            "one: close() then fires while that broker's connection is still open")
     fires = []
     for f in prog.functions(module="brokerclient"):
         for c in calls_in(f, "callback"):
@@ -189,6 +203,27 @@ def run(ctx):
                         "close() during that suspension: the loop goes on to dial the next host / write the request; the pending "
                         "operation is not failed", facts=["suspensions before=%d" % len(after)])
 
+    # ---- R6 broker client: nothing is (re)scheduled once close() was called (shared with C10.R5/R6)
+    r = ctx.rule("R6", "a closed broker client arms no reconnect timer, starts no attempt and accepts no request", 3, "B")
+    from ..cfg import known_falsy
+    conn = ctx.func("brokerclient:_KafkaBrokerClient._connect")
+    for g in conn.nested.values():
+        cg = ctx.cfg(g)
+        fg = ctx.facts(g)
+        for n in cg.nodes:
+            if any(call_name(c) in ("deferLater", "callLater") for c in n.calls()):
+                r.check(known_falsy(fg[n.id], "self._dDown"), "%s#timer-only-when-open" % g.qname,
+                        "a reconnect timer can be armed after close()", where(g, n.stmt), "connection attempt after close(); close Deferred never fires")
+            if any(call_name(c) == "_sendQueued" for c in n.calls()):
+                r.check(known_falsy(fg[n.id], "self._dDown"), "%s#send-only-when-open" % g.qname,
+                        "queued requests are written on a connection that completed after close()", where(g, n.stmt))
+    lost = ctx.func("brokerclient:_KafkaBrokerClient._connectionLost")
+    cl = ctx.cfg(lost)
+    fl = ctx.facts(lost)
+    for n in cl.nodes:
+        if any(call_name(c) == "_connect" for c in n.calls()):
+            r.check(known_falsy(fl[n.id], "self._dDown"), "%s#reconnect-only-when-open" % lost.qname, "reconnect after close()", where(lost, n.stmt))
+
     # ---- R5 metadata cleared
     r = ctx.rule("R5", "close() clears the cached metadata (all four routing maps)", 2, "A")
     ram = ctx.func(KC + ".reset_all_metadata")
@@ -210,6 +245,9 @@ MUTANTS = [
     {"id": "fallback-no-recheck", "file": "client.py",
      "old": "        if self._closing:\n            raise CancelledError(message=\"{} was closed\".format(self))\n        returnValue(", "new": "        returnValue(",
      "expect": "C20.R4"},
+    {"id": "aggregate-reset-unconditional", "file": "client.py",
+     "old": "            if close_dlist == self.close_dlist:\n                self.close_dlist = None", "new": "            self.close_dlist = None",
+     "expect": "C20.R2", "note": "seeded C20-1"},
     {"id": "poison-last", "file": "client.py",
      "old": "        self._closing = True\n        # Close down any clients we have\n        brokerclients, self.clients = self.clients, None\n        self._close_brokerclients(brokerclients.values())\n",
      "new": "        # Close down any clients we have\n        brokerclients, self.clients = self.clients, None\n        self._close_brokerclients(brokerclients.values())\n        self._closing = True\n",
